@@ -12,6 +12,7 @@ import (
 	"golang.org/x/tools/go/ssa"
 )
 
+var absLoaderType = types.NewNamed(types.NewTypeName(0, nil, "scenarioLoader", nil), types.NewStruct(nil, nil), nil)
 var absValidatorType = types.NewNamed(types.NewTypeName(0, nil, "abstractValidator", nil), types.NewStruct(nil, nil), nil)
 
 func (w *World) namedType(pkgSuffix, name string) types.Type {
@@ -121,7 +122,7 @@ func (e *Exec) scenarioShape(path string, t types.Type, a string) ([]altFn, bool
 			outT := w.namedType("pkg/generator", "output")
 			fileT := w.namedType("pkg/codegen", "File")
 			var tags []Val
-			jsonOnly, registered := false, false
+			jsonOnly, registered, ownPkg := false, false, false
 			for _, tg := range args {
 				if tg == "@jsononly" { // not a tag: the formatter list without --extra-imports
 					jsonOnly = true
@@ -129,6 +130,10 @@ func (e *Exec) scenarioShape(path string, t types.Type, a string) ([]altFn, bool
 				}
 				if tg == "@registered" { // not a tag: the generator knows its own document and output
 					registered = true
+					continue
+				}
+				if tg == "@ownpkg" { // not a tag: the generator's own output is in package "p1", not the default one
+					ownPkg = true
 					continue
 				}
 				tags = append(tags, atom("tag:"+tg))
@@ -196,6 +201,58 @@ func (e *Exec) scenarioShape(path string, t types.Type, a string) ([]altFn, bool
 				s.Heap[gr.Cell] = ga
 				sgFields["schema"] = sr
 				sgFields["schemaFileName"] = atom("schemaFileName")
+				// defaults for documents without a mapping; a scenario loader that knows
+				// one other document: id "other.ID", a typed definition X, an untyped root
+				ga = s.Heap[gr.Cell].(*Agg)
+				if i := structFieldIndex(ga.Typ, "config"); i >= 0 {
+					cfgA := ga.Elems[i].(*Agg)
+					for name, v := range map[string]Val{"DefaultPackageName": lit("x/defpkg"), "DefaultOutputName": lit("default.go")} {
+						if j := structFieldIndex(cfgA.Typ, name); j >= 0 {
+							cfgA = cfgA.with(j, v)
+						}
+					}
+					ga = ga.with(i, cfgA)
+				}
+				if i := structFieldIndex(ga.Typ, "loader"); i >= 0 {
+					ga = ga.with(i, Iface{Dyn: absLoaderType, V: Opaque{Tag: "scenario-loader"}})
+				}
+				s.Heap[gr.Cell] = ga
+				tyT := w.namedType("pkg/schemas", "Type")
+				oar := s.alloc(&Agg{Elems: []Val{lit("object")}})
+				delete(s.Fresh, oar.Cell)
+				ox := s.alloc(mkStruct(tyT, map[string]Val{"Type": SliceV{Arr: oar, Len_: 1, Cap: 1}}))
+				delete(s.Fresh, ox.Cell)
+				s.CellTypes[ox.Cell] = tyT
+				odm := s.alloc(&MapAgg{Tag: "other.Definitions", Keys: []Val{lit("X")}, Vals: []Val{ox}})
+				delete(s.Fresh, odm.Cell)
+				oroot := s.alloc(zeroVal(tyT))
+				delete(s.Fresh, oroot.Cell)
+				s.CellTypes[oroot.Cell] = tyT
+				osr := s.alloc(mkStruct(schT, map[string]Val{"ID": atom("other.ID"), "Definitions": MapV{Cell: odm.Cell}, "ObjectAsType": oroot}))
+				delete(s.Fresh, osr.Cell)
+				s.CellTypes[osr.Cell] = schT
+				s.Ghost["scenario:other-schema"] = osr
+				// the generator's own output file: the default package, or its own
+				pkgName := "x/defpkg"
+				if ownPkg {
+					pkgName = "p1"
+				}
+				fa := s.Heap[fr.Cell].(*Agg)
+				if i := structFieldIndex(fa.Typ, "Package"); i >= 0 {
+					pa := fa.Elems[i].(*Agg)
+					if j := structFieldIndex(pa.Typ, "QualifiedName"); j >= 0 {
+						pa = pa.with(j, lit(pkgName))
+					}
+					fa = fa.with(i, pa)
+				}
+				if i := structFieldIndex(fa.Typ, "FileName"); i >= 0 {
+					fn := "default.go"
+					if ownPkg {
+						fn = "own.go"
+					}
+					fa = fa.with(i, lit(fn))
+				}
+				s.Heap[fr.Cell] = fa
 			}
 			sg := mkStruct(p.Elem(), sgFields)
 			r := s.alloc(sg)
@@ -497,6 +554,19 @@ func (e *Exec) scenarioShape(path string, t types.Type, a string) ([]altFn, bool
 // the three kinds the formatters distinguish; generate() emits a marker
 // statement that stage 2 treats as an opaque fragment.
 func (e *Exec) abstractInvoke(s *State, c *ssa.Call, recv Iface, args []Val) ([]Out, bool) {
+	if recv.Dyn == absLoaderType {
+		// the scenario loader: Load fails, or returns the scenario's other document
+		// (whatever the arguments; they are recorded for call_arg)
+		if c.Call.Method.Name() != "Load" {
+			return nil, false
+		}
+		s.Ghost["callarg:Loader.Load"] = Tuple(append([]Val{recv}, args...))
+		other, _ := s.Ghost["scenario:other-schema"].(Ref)
+		s2 := s.clone()
+		s.Ghost["callret:Loader.Load"] = Tuple{other, Iface{}}
+		s2.Ghost["callret:Loader.Load"] = Tuple{Ref{}, mkErr("from Loader.Load")}
+		return []Out{{St: s, Rets: []Val{other, Iface{}}}, {St: s2, Rets: []Val{Ref{}, mkErr("from Loader.Load")}}}, true
+	}
 	if recv.Dyn != absValidatorType {
 		return nil, false
 	}
